@@ -23,6 +23,12 @@ use crate::proto::*;
 use crate::rng::Rng;
 use log::Log;
 use log4rs::append::file::FileAppender;
+use log4rs::append::rolling_file::policy::compound::roll::delete::DeleteRoller;
+use log4rs::append::rolling_file::policy::compound::roll::fixed_window::FixedWindowRoller;
+use log4rs::append::rolling_file::policy::compound::roll::Roll;
+use log4rs::append::rolling_file::policy::compound::trigger::size::SizeTrigger;
+use log4rs::append::rolling_file::policy::compound::CompoundPolicy;
+use log4rs::append::rolling_file::RollingFileAppender;
 use log4rs::config::{Appender, Config, Logger, Root};
 use log4rs::encode::pattern::PatternEncoder;
 use log4rs::filter::threshold::ThresholdFilter;
@@ -38,6 +44,12 @@ pub struct App {
     pub ast: String,
     /// stage 2 (B): the appender carries `JsonEncoder::new()`; case fields `pattern` = `@json`, `ast` = `~`
     pub json: bool,
+    /// stage 2 (C): `Some((limit, roller))` = a `RollingFileAppender` with
+    /// `CompoundPolicy(SizeTrigger(limit), roller)` in a directory of its own (log file `active.log`,
+    /// archives `arch.{}.log`); roller = None: `DeleteRoller`, Some((base, count)): `FixedWindowRoller`.
+    /// `pre` is then the content of `active.log` before the appender is built.
+    /// 7th field of the appender entry: `R<limit>:d` | `R<limit>:w<base>:<count>`
+    pub rolling: Option<(u64, Option<(u32, u32)>)>,
 }
 
 #[derive(Clone, Debug)]
@@ -79,13 +91,18 @@ impl SysCase {
             .map(|a| {
                 let thr: String = a.thresholds.iter().map(|t| t.to_string()).collect();
                 format!(
-                    "{};{};{};{};{};{}",
+                    "{};{};{};{};{};{}{}",
                     enc_str(&a.name),
                     if a.append { "a" } else { "t" },
                     enc_opt(a.pre.as_ref(), |b| enc_bytes(b)),
                     if thr.is_empty() { "~".to_owned() } else { thr },
                     if a.json { "@json".to_owned() } else { enc_str(&a.pattern) },
-                    if a.json { "~".to_owned() } else { a.ast.clone() }
+                    if a.json { "~".to_owned() } else { a.ast.clone() },
+                    match &a.rolling {
+                        None => String::new(),
+                        Some((l, None)) => format!(";R{}:d", l),
+                        Some((l, Some((b, c)))) => format!(";R{}:w{}:{}", l, b, c),
+                    }
                 )
             })
             .collect();
@@ -133,15 +150,26 @@ impl SysCase {
         let mut apps = vec![];
         for a in f[1].split('|') {
             let p: Vec<&str> = a.split(';').collect();
-            if p.len() != 6 {
+            if p.len() != 6 && p.len() != 7 {
                 return None;
             }
+            let rolling = if p.len() == 7 {
+                let q: Vec<&str> = p[6].strip_prefix('R')?.split(':').collect();
+                match q.as_slice() {
+                    [l, "d"] => Some((l.parse().ok()?, None)),
+                    [l, b, c] => Some((l.parse().ok()?, Some((b.strip_prefix('w')?.parse().ok()?, c.parse().ok()?)))),
+                    _ => return None,
+                }
+            } else {
+                None
+            };
             let thresholds: Vec<u8> = if p[3] == "~" {
                 vec![]
             } else {
                 p[3].chars().map(|c| c.to_digit(10).filter(|d| *d <= 5).map(|d| d as u8)).collect::<Option<Vec<u8>>>()?
             };
             apps.push(App {
+                rolling,
                 name: dec_str(p[0])?,
                 append: match p[1] {
                     "a" => true,
@@ -251,7 +279,21 @@ fn read_files(paths: &[std::path::PathBuf], mask: &[bool]) -> String {
     let v: Vec<String> = paths
         .iter()
         .zip(mask.iter())
-        .map(|(p, m)| enc_bytes(&mask_times(&std::fs::read(p).unwrap_or_else(|_| b"<unreadable>".to_vec()), *m)))
+        .map(|(p, m)| {
+            if p.is_dir() {
+                // a rolling appender's directory: `D:` + name=bytes of every file, sorted by name
+                let mut files: Vec<(String, Vec<u8>)> = std::fs::read_dir(p)
+                    .unwrap()
+                    .filter_map(|e| e.ok())
+                    .map(|e| (e.file_name().to_string_lossy().into_owned(), std::fs::read(e.path()).unwrap_or_default()))
+                    .collect();
+                files.sort_by(|a, b| a.0.cmp(&b.0));
+                let items: Vec<String> = files.iter().map(|(n, b)| format!("{}={}", n, enc_bytes(&mask_times(b, *m)))).collect();
+                format!("D:{}", enc_list(";", &items))
+            } else {
+                enc_bytes(&mask_times(&std::fs::read(p).unwrap_or_else(|_| b"<unreadable>".to_vec()), *m))
+            }
+        })
         .collect();
     v.join(",")
 }
@@ -260,7 +302,9 @@ fn read_files(paths: &[std::path::PathBuf], mask: &[bool]) -> String {
 fn run_in_thread(c: &SysCase) -> String {
     let facts = format!("{} {} {}", enc_bool(cfg!(debug_assertions)), std::process::id(), thread_id::get());
     let scratch = Scratch::new("sys");
-    let paths: Vec<std::path::PathBuf> = (0..c.apps.len()).map(|i| scratch.path().join(format!("app{}.log", i))).collect();
+    let paths: Vec<std::path::PathBuf> = (0..c.apps.len())
+        .map(|i| scratch.path().join(if c.apps[i].rolling.is_some() { format!("app{}", i) } else { format!("app{}.log", i) }))
+        .collect();
     let has_json = c.apps.iter().any(|a| a.json);
     // only the files of JSON appenders are masked (inside a JSON string a quote is escaped, so the
     // text `{"time":"` occurs there only at the start of a record)
@@ -269,18 +313,46 @@ fn run_in_thread(c: &SysCase) -> String {
     let result = guarded(AssertUnwindSafe(|| -> String {
         let mut b = Config::builder();
         for (a, path) in c.apps.iter().zip(paths.iter()) {
-            match &a.pre {
-                Some(bytes) => std::fs::write(path, bytes).unwrap(),
+            let boxed: Box<dyn log4rs::append::Append> = match &a.rolling {
                 None => {
-                    let _ = std::fs::remove_file(path);
+                    match &a.pre {
+                        Some(bytes) => std::fs::write(path, bytes).unwrap(),
+                        None => {
+                            let _ = std::fs::remove_file(path);
+                        }
+                    }
+                    Box::new(FileAppender::builder().append(a.append).encoder(encoder_of(a)).build(path).unwrap())
                 }
-            }
-            let fa = FileAppender::builder().append(a.append).encoder(encoder_of(a)).build(path).unwrap();
+                Some((limit, roller)) => {
+                    // `path` is the appender's own directory
+                    std::fs::create_dir_all(path).unwrap();
+                    if let Some(bytes) = &a.pre {
+                        std::fs::write(path.join("active.log"), bytes).unwrap();
+                    }
+                    let roller: Box<dyn Roll> = match roller {
+                        None => Box::new(DeleteRoller::new()),
+                        Some((base, count)) => Box::new(
+                            FixedWindowRoller::builder()
+                                .base(*base)
+                                .build(&path.join("arch.{}.log").to_string_lossy(), *count)
+                                .unwrap(),
+                        ),
+                    };
+                    let policy = CompoundPolicy::new(Box::new(SizeTrigger::new(*limit)), roller);
+                    Box::new(
+                        RollingFileAppender::builder()
+                            .append(a.append)
+                            .encoder(encoder_of(a))
+                            .build(path.join("active.log"), Box::new(policy))
+                            .unwrap(),
+                    )
+                }
+            };
             let mut ab = Appender::builder();
             for t in &a.thresholds {
                 ab = ab.filter(Box::new(ThresholdFilter::new(level_filter(*t))));
             }
-            b = b.appender(ab.build(a.name.clone(), Box::new(fa)));
+            b = b.appender(ab.build(a.name.clone(), boxed));
         }
         for l in &c.loggers {
             b = b.logger(
@@ -405,7 +477,23 @@ fn gen_app(rng: &mut Rng, name: &str, thorough: bool) -> App {
     };
     // stage 2 (B): every fourth appender carries the JSON encoder instead of a pattern
     let json = rng.chance(1, 4);
-    App { name: name.to_owned(), append: rng.chance(1, 2), pre, thresholds, pattern, ast: enc_list(",", &toks), json }
+    App { name: name.to_owned(), append: rng.chance(1, 2), pre, thresholds, pattern, ast: enc_list(",", &toks), json, rolling: None }
+}
+
+/// stage 2 (C): turn a file appender into a rolling one: limits around the size of a few lines and
+/// around the BufWriter capacity, so that a 5-40 record history rotates a handful of times
+fn make_rolling(rng: &mut Rng, a: &mut App) {
+    let limit = *rng.pick(&[0u64, 30, 60, 120, 300, 1000, 1024, 1100, 2500]);
+    let roller = if rng.chance(1, 4) { None } else { Some((rng.below(2) as u32, rng.below(4) as u32)) };
+    a.rolling = Some((limit, roller));
+    // a JSON line carries the wall-clock time, whose length is not an input of the case: with a size
+    // trigger the rotation points would depend on it, so rolling appenders carry pattern encoders here
+    a.json = false;
+    if let Some(p) = &a.pre {
+        if p.len() > 100 {
+            a.pre = Some(b"kept or dropped\n".to_vec());
+        }
+    }
 }
 
 fn gen_refs(rng: &mut Rng, apps: &[App], max: u64, shared: &str) -> Vec<String> {
@@ -523,7 +611,16 @@ fn gen_records(rng: &mut Rng, routing: &Cfg, n: usize) -> Vec<Rec> {
 
 pub fn gen_case(rng: &mut Rng, thorough: bool) -> SysCase {
     let napps = rng.range(1, 5) as usize;
-    let apps: Vec<App> = APP_NAMES[..napps].iter().map(|n| gen_app(rng, n, thorough)).collect();
+    let mut apps: Vec<App> = APP_NAMES[..napps].iter().map(|n| gen_app(rng, n, thorough)).collect();
+    // stage 2 (C): in a third of the cases the shared appender (index 0: attached to many loggers, often
+    // several times along one chain) is a rolling appender, and so is every fourth other one
+    if rng.chance(1, 3) {
+        for (i, a) in apps.iter_mut().enumerate() {
+            if i == 0 || rng.chance(1, 4) {
+                make_rolling(rng, a);
+            }
+        }
+    }
     let (root_level, root_refs, loggers) = gen_routing(rng, &apps, thorough);
     let nrec = match rng.below(10) {
         0 => 1,
@@ -552,7 +649,7 @@ fn fixed_cases(emit: &mut dyn FnMut(String)) {
         c09::show(&ps, &mut pattern);
         let mut toks = vec![];
         c09::tokens(&ps, &mut toks);
-        App { name: name.to_owned(), append, pre: pre.map(|b| b.to_vec()), thresholds: thresholds.to_vec(), pattern, ast: enc_list(",", &toks), json: false }
+        App { name: name.to_owned(), append, pre: pre.map(|b| b.to_vec()), thresholds: thresholds.to_vec(), pattern, ast: enc_list(",", &toks), json: false, rolling: None }
     };
     let rec = |target: &str, level: u8, message: &str| Rec {
         target: target.to_owned(),
@@ -639,8 +736,9 @@ fn fixed_json_cases(emit: &mut dyn FnMut(String)) {
         pattern: String::new(),
         ast: "~".to_owned(),
         json: true,
+        rolling: None,
     };
-    let f = App { name: "f".into(), append: true, pre: None, thresholds: vec![], pattern, ast: enc_list(",", &toks), json: false };
+    let f = App { name: "f".into(), append: true, pre: None, thresholds: vec![], pattern, ast: enc_list(",", &toks), json: false, rolling: None };
     let rec = |target: &str, level: u8, message: &str, mdc: &[(&str, &str)]| Rec {
         target: target.to_owned(),
         level,
@@ -675,10 +773,66 @@ fn fixed_json_cases(emit: &mut dyn FnMut(String)) {
     }
 }
 
+/// stage 2 (C): a rolling appender shared by root and two loggers on one chain (a record for `a::b`
+/// is delivered three times: a rotation can fall between the copies), next to a plain file appender
+fn fixed_rolling_cases(emit: &mut dyn FnMut(String)) {
+    let ps = vec![Pat::Leaf(1, false, None), Pat::Leaf(10, false, None)];
+    let mut pattern = String::new();
+    c09::show(&ps, &mut pattern);
+    let mut toks = vec![];
+    c09::tokens(&ps, &mut toks);
+    let app = |name: &str, append: bool, pre: Option<&[u8]>, rolling: Option<(u64, Option<(u32, u32)>)>| App {
+        name: name.to_owned(),
+        append,
+        pre: pre.map(|b| b.to_vec()),
+        thresholds: vec![],
+        pattern: pattern.clone(),
+        ast: enc_list(",", &toks),
+        json: false,
+        rolling,
+    };
+    let rec = |target: &str, level: u8, message: &str| Rec {
+        target: target.to_owned(),
+        level,
+        message: message.to_owned(),
+        module: None,
+        file: None,
+        line: None,
+        mdc: vec![],
+    };
+    let big = "z".repeat(1030);
+    for (roller, limit, append) in [(Some((0u32, 2u32)), 25u64, true), (Some((1, 1)), 25, false), (Some((0, 0)), 40, true), (None, 25, true), (Some((0, 3)), 1024, false)] {
+        emit(
+            SysCase {
+                apps: vec![app("r", append, Some(b"old content\n"), Some((limit, roller))), app("f", true, None, None)],
+                root_level: 5,
+                root_refs: vec!["r".into()],
+                loggers: vec![
+                    LCfg { name: "a".into(), level: 5, additive: true, refs: vec!["r".into(), "f".into()] },
+                    LCfg { name: "a::b".into(), level: 5, additive: true, refs: vec!["r".into()] },
+                ],
+                thread: None,
+                records: vec![
+                    rec("x", 3, "0123456789"),
+                    rec("a::b", 3, "three copies"),
+                    rec("a", 3, "two"),
+                    rec("a::b::c", 3, &big),
+                    rec("x", 3, ""),
+                    rec("a::b", 3, "abcdefghijklmnopqrstuvwxyz"),
+                    rec("x", 3, "tail"),
+                ],
+                snap: true,
+            }
+            .line(),
+        );
+    }
+}
+
 /// `n` random cases behind the fixed ones
 pub fn gen(rng: &mut Rng, n: usize, thorough: bool, emit: &mut dyn FnMut(String)) {
     fixed_cases(emit);
     fixed_json_cases(emit);
+    fixed_rolling_cases(emit);
     for _ in 0..n {
         emit(gen_case(rng, thorough).line());
     }
@@ -817,6 +971,7 @@ impl Cfg2 {
                     _ => return None,
                 },
                 pre: None,
+                rolling: None,
                 thresholds,
                 pattern: if p[4] == "@json" { String::new() } else { dec_str(p[4])? },
                 ast: p[5].to_owned(),
